@@ -192,4 +192,31 @@ PROPS["C16"] = {
     "level_note": "Trusted: Lean kernel, harness, oracle. Handshake part pending the HTTP model.",
 }
 
+PROPS["C08"] = {
+    "lean": ["WsVerif.Props.C08"],
+    "rule": "ControlHandler.Handle (masked source on the server side), ControlFrameHandler and HandleControlMessage (Client/Server variants) "
+            "for ping, pong, close x payload lengths 0..125 (all in thorough; 0..12, every 9th, 118..125 in quick) x both sides; all 65,536 "
+            "close codes (thorough; 1/13 + the boundary windows in quick) with no / valid / truncated / 0xFF reasons; 1-byte close payloads; "
+            "non-control opcodes; the ReadData control path is exercised by C04/C05/C16 families; ControlWriter: all sequences of <= 3 "
+            "writes over sizes {0,1,62,63,124,125,126} + Flush for NewControlWriter and NewControlWriterBuffer(200,131,127,40), both sides.",
+    "exhaustive_families": ["cw (write sequences to depth 2-3)", "ctl (opcode x length x side x entry point, thorough)"],
+    "trusted_base": READER_TB[:2] + [
+        "Driver/C04Oracle.lean:replyFor/judgeCtl — the replies RFC 6455 §5.5 asks for, judged on the destination bytes with the C01 decoder, "
+        "the C02 XOR and the C03 close-code predicate",
+        "Model/Control.lean mirrors wsutil/handler.go and ControlWriter by hand; exact correspondence of errors and destination writes",
+    ],
+    "assumptions": COMMON_ASSUME + ["the handler's source delivers the frame's payload (it is the message reader or a bytes.Reader)",
+                                    "close codes 1012-1014 and >= 5000: either reply accepted (left open by C03)",
+                                    "which of 1002/1007 is used for an invalid close is left open; the library always sends 1002"],
+    "level_text": "Kernel-checked: ControlWriter invariant over EVERY sequence of writes (running count exact, <= 125, nothing sent before "
+                  "Flush, over-limit writes refused), Flush = exactly one final control frame of <= 125 bytes masked iff client; a ping of "
+                  "1..125 bytes read in any chunking is answered by exactly one pong with the identical payload; empty / valid / invalid "
+                  "close frames get the empty / echoed-code / 1002 reply and the right error value; every reply header passes the peer's "
+                  "CheckHeader and the 1002 payload passes the peer's CheckCloseFrameData. The unchanged tree violated the property (F1: "
+                  "client-side protocol-error reply unmasked and garbled; F2: ControlWriter never counted) — found by the oracle, repaired "
+                  "by fix commits cf8539c and 3950338.",
+    "level_note": "Trusted: Lean kernel, the reply oracle, harness; source-unmasking variant (server-side ControlHandler with a masked Src) is "
+                  "covered by correspondence only.",
+}
+
 NOT_APPLICABLE = {}
